@@ -47,6 +47,9 @@ class Hist {
   uint64_t serial_checked_nontrivial = 0, roundtrips = 0, fired_faults = 0, failed_after_move = 0, tag_repointed = 0, replace_last_ref = 0;
   std::set<int> copy_roots, copy_sources;
 
+  void measure(int id, uint64_t& bytes, uint64_t& count_nodes) const;   // encoded size / node count of the tree under id (saturating)
+  bool small_enough(int id, uint64_t max_bytes, uint64_t max_nodes) const { uint64_t b = 0, n = 0; measure(id, b, n); return b <= max_bytes && n <= max_nodes; }
+  uint64_t occurrences(int id) const;    // how many times the node occurs in the tree expansions of all client handles (saturating)
   OpResult run_op(const HOp& op);        // executes one op with all oracles
   uint64_t dry_requests(const HOp& op);  // requests the op would make fault-free (only for ops that do not mutate existing state; else ~0)
   void final_checks();                   // serialise/round-trip every root (C03)
@@ -59,10 +62,8 @@ class Hist {
   bool reaches(int from, int target) const;
   bool serialisable(int id) const;
   MV to_value(int id) const;
-  void measure(int id, uint64_t& bytes, uint64_t& count_nodes) const;   // encoded size / node count of the tree under id (saturating)
   int big_budget = 6;                    // how many operations on very large trees a run may still perform (keeps runs bounded)
   bool afford(int id, uint64_t max_bytes, uint64_t max_nodes) { uint64_t b = 0, n = 0; measure(id, b, n); if (b <= ((uint64_t)1 << 18) && n <= 4000) return true; if (b <= max_bytes && n <= max_nodes && big_budget > 0) { big_budget--; return true; } return false; }
-  bool small_enough(int id, uint64_t max_bytes, uint64_t max_nodes) const { uint64_t b = 0, n = 0; measure(id, b, n); return b <= max_bytes && n <= max_nodes; }
   int new_node(MKind k);
   void add_edge(int parent, int child) { nodes[parent].kids.push_back(child); nodes[child].in_edges++; }
   void predict_release(int id, std::vector<int>& dying, std::map<int, int64_t>& dec) const;
